@@ -18,6 +18,9 @@ pub enum Op {
     Drain,
     /// requested queue size, discard oldest
     Modify(u32, bool),
+    /// the same with a data change filter the server has to refuse (percent deadband): whatever the refusal leaves behind, the
+    /// queue must still fit its size afterwards
+    ModifyRefused(u32, bool),
 }
 
 #[derive(Clone, Debug, Serialize, Deserialize, PartialEq)]
@@ -35,7 +38,7 @@ fn case() -> impl Strategy<Value = Case> {
     (
         qsize(),
         any::<bool>(),
-        prop::collection::vec(prop_oneof![8 => Just(Op::Sample), 1 => Just(Op::Resample), 2 => Just(Op::Drain), 3 => (qsize(), any::<bool>()).prop_map(|(q, d)| Op::Modify(q, d))], 1..40),
+        prop::collection::vec(prop_oneof![16 => Just(Op::Sample), 2 => Just(Op::Resample), 4 => Just(Op::Drain), 6 => (qsize(), any::<bool>()).prop_map(|(q, d)| Op::Modify(q, d)), 1 => (qsize(), any::<bool>()).prop_map(|(q, d)| Op::ModifyRefused(q, d))], 1..40),
     )
         .prop_map(|(queue_size, discard_oldest, ops)| Case { queue_size, discard_oldest, ops })
 }
@@ -113,6 +116,7 @@ fn run(ctx: &Ctx, case: &Case) -> PResult {
         _ => 0,
     });
     let mut interesting = false;
+    let mut stop = false;
     let mut now = t0;
 
     for (i, op) in case.ops.iter().enumerate() {
@@ -194,6 +198,28 @@ fn run(ctx: &Ctx, case: &Case) -> PResult {
                     return ctx.fail("modify/queue-size", format!("step {}: requested {} -> revised {} (expected {})", i, q, item.queue_size(), qs));
                 }
             }
+            Op::ModifyRefused(q, d) => {
+                let filter = ExtensionObject::from_encodable(ObjectId::DataChangeFilter_Encoding_DefaultBinary, &DataChangeFilter { trigger: DataChangeTrigger::StatusValue, deadband_type: 2, deadband_value: 10.0 });
+                let req = MonitoredItemModifyRequest {
+                    monitored_item_id: 1,
+                    requested_parameters: MonitoringParameters { client_handle: 7, sampling_interval: -1.0, filter, queue_size: *q, discard_oldest: *d },
+                };
+                let r = ctx.guard(|| with_space(|a| item.modify(&state, a, TimestampsToReturn::Both, &req)))?;
+                ctx.class(if r.is_err() { "modify_refused" } else { "modify_with_unsupported_filter_accepted" });
+                // The property does not say what a refused modify leaves behind (the code applies the new size and policy before
+                // it looks at the filter). The model continues from what the item holds now; the invariants below still bind.
+                qs = item.queue_size();
+                discard = *d;
+                model = item.queue().iter().map(|n| value_of(n).0).collect();
+                if item.queue().iter().any(|n| value_of(n).1) {
+                    overflow_since_drain = true;
+                } else {
+                    overflow_pending = false;
+                }
+                // refused or not, the new filter is in place now (the code stores it before it validates it) and decides which
+                // samples are queued from here on, which is C25's subject: the history ends after the invariants of this step
+                stop = true;
+            }
         }
         // invariants after every step
         let q: Vec<i64> = item.queue().iter().map(|n| value_of(n).0).collect();
@@ -202,6 +228,9 @@ fn run(ctx: &Ctx, case: &Case) -> PResult {
         }
         if q != model.iter().copied().collect::<Vec<_>>() {
             return ctx.fail("invariant/queue-content", format!("step {} ({:?}): queue holds {:?}, model {:?} (queue size {}, discard_oldest {})", i, op, q, model, qs, discard));
+        }
+        if stop {
+            break;
         }
     }
     if interesting {
@@ -213,7 +242,7 @@ fn run(ctx: &Ctx, case: &Case) -> PResult {
 pub fn def() -> PropDef {
     PropDef {
         id: "C24",
-        rule: "histories of up to 40 operations (sample a fresh value, re-sample, drain, modify to queue size 0..12 / large / u32::MAX with either discard policy) on one real MonitoredItem created with queue size 0..12 / large, against a VecDeque model; the queue content is compared after every step and the delivered values after every drain; non-trivial = an overflow of a full queue or a modify that shrinks below the current fill; distinct = distinct history",
+        rule: "histories of up to 40 operations (sample a fresh value, re-sample, drain, modify to queue size 0..12 / large / u32::MAX with either discard policy, and the same with a filter the server refuses, which ends the history) on one real MonitoredItem created with queue size 0..12 / large, against a VecDeque model; the queue content is compared after every step and the delivered values after every drain; non-trivial = an overflow of a full queue or a modify that shrinks below the current fill; distinct = distinct history",
         assumptions: &[
             "which entry carries the overflow bit is not fixed by the property: the check requires some delivered entry to carry it after an overflow of a queue larger than 1 (unless a later shrink may have dropped it) and none to carry it when no overflow happened since the last drain",
             "queue size 0 and 1 both mean 1 and sizes above the server maximum are clamped to it (sanitize_queue_size, C23)",
